@@ -43,20 +43,20 @@ type group struct {
 
 var groups = []group{
 	{Name: "rate", Alphabet: []string{"crawl", "crawl.get", "crawl.reset", "seed"},
-		Quick: []shape{{1, 2}, {2, 2}, {3, 1}}, Thorough: []shape{{1, 3}, {2, 2}, {3, 1}, {2, 3}}},
+		Quick: []shape{{1, 2}, {2, 1}, {2, 2}, {3, 1}}, Thorough: []shape{{1, 3}, {2, 1}, {2, 2}, {3, 1}, {2, 3}}},
 	{Name: "rate2", Alphabet: []string{"seed", "seed.get", "seed.reset", "crawl"},
-		Quick: []shape{{1, 2}, {2, 1}}, Thorough: []shape{{1, 3}, {2, 2}, {3, 1}}},
+		Quick: []shape{{1, 2}, {2, 1}}, Thorough: []shape{{1, 3}, {2, 1}, {2, 2}, {3, 1}}},
 	{Name: "bucket", Alphabet: []string{"code200", "code404", "code200.get", "code200.reset", "code.resetall"},
-		Quick: []shape{{1, 2}, {2, 2}, {3, 1}}, Thorough: []shape{{1, 3}, {2, 2}, {3, 1}, {2, 3}, {3, 2}}},
+		Quick: []shape{{1, 2}, {2, 1}, {2, 2}, {3, 1}}, Thorough: []shape{{1, 3}, {2, 1}, {2, 2}, {3, 1}, {2, 3}, {3, 2}}},
 	{Name: "mean", Alphabet: []string{"http.add10", "http.add30", "http.get", "http.reset"},
-		Quick: []shape{{1, 2}, {2, 2}, {3, 1}}, Thorough: []shape{{1, 3}, {2, 2}, {3, 1}, {2, 3}}},
+		Quick: []shape{{1, 2}, {2, 1}, {2, 2}, {3, 1}}, Thorough: []shape{{1, 3}, {2, 1}, {2, 2}, {3, 1}, {2, 3}}},
 	{Name: "mean3", Alphabet: []string{"http.add10", "http.add30", "http.reset"}, Thorough: []shape{{3, 2}}},
 	{Name: "means", Alphabet: []string{"body.add10", "body.reset", "wait.add30", "wait.reset"},
-		Quick: []shape{{1, 2}, {2, 2}}, Thorough: []shape{{1, 3}, {2, 2}, {3, 1}, {2, 3}}},
+		Quick: []shape{{1, 2}, {2, 1}, {2, 2}}, Thorough: []shape{{1, 3}, {2, 1}, {2, 2}, {3, 1}, {2, 3}}},
 	{Name: "gauge", Alphabet: []string{"pre+", "pre-", "pre.get", "pre.reset"},
-		Quick: []shape{{1, 2}, {2, 2}, {3, 1}}, Thorough: []shape{{1, 3}, {2, 2}, {3, 1}, {2, 3}, {3, 2}}},
+		Quick: []shape{{1, 2}, {2, 1}, {2, 2}, {3, 1}}, Thorough: []shape{{1, 3}, {2, 1}, {2, 2}, {3, 1}, {2, 3}, {3, 2}}},
 	{Name: "gauges", Alphabet: []string{"arch+", "arch-", "arch.reset", "post+", "post-", "post.reset"},
-		Quick: []shape{{1, 2}, {2, 2}}, Thorough: []shape{{1, 3}, {2, 2}, {3, 1}, {2, 3}}},
+		Quick: []shape{{1, 2}, {2, 1}, {2, 2}}, Thorough: []shape{{1, 3}, {2, 1}, {2, 2}, {3, 1}, {2, 3}}},
 	{Name: "mixed", Alphabet: []string{"seed", "code404", "body.add10", "wait.add30", "arch+"}, Lead: []string{"Reset", "TUI"},
 		Quick: []shape{{1, 0}, {2, 2}}, Thorough: []shape{{1, 0}, {2, 2}, {2, 3}, {3, 1}},
 		ThoroughExtra: [][][]string{{{"Reset"}, {"TUI"}}}},
@@ -277,7 +277,7 @@ func worker(a hkit.Args, specs []scenarioSpec, deadline time.Time) {
 		if len(out.Samples) < 2 && len(spec.Programs) > 1 && len(rep.Outcomes) > 1 {
 			var tr []string
 			for _, s := range rep.Sample {
-				tr = append(tr, s.Thread+" "+s.Point)
+				tr = append(tr, tname(s.Thread)+" "+point(s.Point))
 			}
 			out.Samples = append(out.Samples, map[string]any{"scenario": spec, "executions": rep.Executions,
 				"distinct_final_values": vsched.SortedKeys(rep.Outcomes), "first_trace": tr})
@@ -297,6 +297,25 @@ func kindsOfSig(sig string) (string, map[string]bool) {
 		set[k] = true
 	}
 	return sig[:i], set
+}
+
+// tname shortens a scheduler thread name ("0.1(main.go:145 go func...)") to its path;
+// thread 0.i runs Programs[i].
+func tname(t string) string {
+	if i := strings.IndexByte(t, '('); i > 0 {
+		t = t[:i]
+	}
+	if strings.HasPrefix(t, "0.") {
+		return "T" + t[2:]
+	}
+	return "main"
+}
+
+func point(p string) string {
+	if strings.HasPrefix(p, "start ") {
+		return "start"
+	}
+	return p
 }
 
 func nops(s scenarioSpec) int {
@@ -344,7 +363,7 @@ func reportFound(all []found) {
 		}
 		var sched []string
 		for _, s := range f.Vio.Steps {
-			sched = append(sched, s.Thread+":"+s.Point)
+			sched = append(sched, tname(s.Thread)+":"+point(s.Point))
 		}
 		hkit.Report(propID, sig, map[string]any{"engine": "explore", "harness": "c17", "scenario": f.Spec, "violation": f.Vio},
 			fmt.Sprintf("%s: %s (schedule: %s)", f.Spec, f.Vio.Message, strings.Join(sched, " -> ")))
@@ -438,13 +457,17 @@ func main() {
 	for _, g := range groups {
 		alph[g.Name] = map[string]any{"operations": g.Alphabet, "lead": g.Lead, "shapes_threads_x_ops": fmt.Sprint(g.shapes(a.Tier))}
 	}
+	var names []string
+	for _, m := range metrics {
+		names = append(names, m.Name)
+	}
 	hkit.Evidence(propID, a.Tier, "model_checking", map[string]any{
 		"states": tot.States, "transitions": tot.Transitions, "traces_validated_against_impl": tot.Executions,
 		"samples": tot.Samples, "exhaustive": tot.Exhaustive && tot.Scenarios == len(specs), "cap_hit": tot.CapHit,
 		"scenarios": tot.Scenarios, "scenarios_enumerated": len(specs), "scenarios_contended": tot.Contended,
 		"distinct_final_values_summed": tot.Outcomes, "sequential_finals_summed": tot.SeqFinals,
 		"pruned_by_state_cache": tot.Pruned, "max_steps": tot.MaxSteps, "preemption_bound": "none (P=99 > steps)",
-		"alphabets": alph, "per_group": per, "race_pass": rr.summary(),
+		"alphabets": alph, "per_group": per, "final_value_columns": names, "race_pass": rr.summary(),
 		"explanation": "per scenario: stateless DFS over every interleaving of the atomic/mutex operations of the real stats package " +
 			"(states = distinct happens-before fingerprints, summed over scenarios); oracle = final reported values are in the set of finals " +
 			"of all program-order-respecting sequential orders on an atomic reference model; scenarios_contended = scenarios with more than one " +
@@ -467,10 +490,10 @@ func replay(a hkit.Args) {
 		hkit.EngineError("%v", err)
 	}
 	var r struct {
-		Engine string       `json:"engine"`
-		Spec   scenarioSpec `json:"scenario"`
+		Engine string           `json:"engine"`
+		Spec   scenarioSpec     `json:"scenario"`
 		Vio    vsched.Violation `json:"violation"`
-		Race   raceReport `json:"race"`
+		Race   raceReport       `json:"race"`
 	}
 	if err := json.Unmarshal(b, &r); err != nil {
 		hkit.EngineError("%v", err)
@@ -488,7 +511,11 @@ func replay(a hkit.Args) {
 		fmt.Printf("VIOLATION property=%s replay=%s\n", propID, a.Replay)
 		os.Exit(1)
 	}
-	fmt.Printf("scenario %s\nsequential finals:\n", r.Spec)
+	var names []string
+	for _, m := range metrics {
+		names = append(names, m.Name)
+	}
+	fmt.Printf("scenario %s\nmetrics: %s\nsequential finals:\n", r.Spec, strings.Join(names, " "))
 	fin := sequentialFinals(r.Spec)
 	keys := hkit.SortedKeys(fin)
 	sort.Strings(keys)
@@ -497,7 +524,7 @@ func replay(a hkit.Args) {
 	}
 	v, x := vsched.Replay(scenario(r.Spec), r.Vio.Choices)
 	for _, s := range x.Steps {
-		fmt.Printf("  %-10s %s\n", s.Thread, s.Point)
+		fmt.Printf("  %-6s %s\n", tname(s.Thread), point(s.Point))
 	}
 	if v == nil {
 		fmt.Println("replay: no violation")
